@@ -255,6 +255,22 @@ def startBytes : List UInt8 :=
   strBytes "\x1b[?69h" ++ strBytes "\x1b[?69$p" ++ strBytes "\x1b[?25$p\x1b[?12$p\x1bP$q q\x1b\\" ++
   strBytes "\x1b[38;5;255m\x1b[38:2:0:1:2m\x1bP$qm\x1b\\\x1b[m" ++ strBytes "\x1b[G\x1b[K"
 
+/-! ### The start-up probe: `on_modereport` for DEC mode 69 -/
+
+/-- `xd->cap.slrm` after the DECRPM reply `CSI ? 69 ; v $ y`: `accept` lists the values the `if` of
+    `on_modereport` case 69 takes for support (read from the source into `Gen.XTermFacts.slrmAccept`; the unchanged
+    tree has `value == 1 || value == 2`). -/
+def slrmCap (accept : List Nat) (v : Nat) : Bool := accept.contains v
+
+/-- The probe is truthful for reply `v`: a claimed DECSLRM capability means that DECLRMM is set (`Spec.CapsOK` for
+    the screen the reply describes). -/
+def ProbeTruthful (accept : List Nat) (v : Nat) : Prop := slrmCap accept v = true → VT.declrmmOfReply v = true
+
+/-- `xd->mode.cursorvis` / `xd->mode.cursorblink` after the replies for modes 25 and 12 (`new()` starts with
+    cursorvis = 1, cursorblink = 0; a reply of 1 sets the flag, nothing clears it). -/
+def cursorvisOfReply (_v : Nat) : Bool := true
+def cursorblinkOfReply (v : Nat) : Bool := v = 1
+
 /-! ### Requests -/
 
 inductive Request
@@ -473,24 +489,34 @@ inductive Op
   | req (q : Request)
   | setpen (p : PenReq)
   | chpen (p : PenReq)
+  /-- `tickit_term_set_size` after the emulator's window changed to `lines` x `cols` -/
+  | resize (lines cols : Int)
 deriving Repr
+
+/-- What the reference terminal shows in the cells a resize adds (any content would do: the theorems hold for every
+    screen content; distinct glyphs make a misplaced cell visible to the runtime oracle). -/
+def freshGrid (cols : Int) : Int → Int → VT.Cell := fun l c => ⟨0x140000 + (l * cols + c).toNat, -1, false⟩
 
 /-- One operation on (driver-side state, screen). -/
 def stepOp (fx : Fixes) (s : Drv × VT.VTState) : Op → Drv × VT.VTState
   | .req q => (s.1, VT.run (request fx s.1 q).2 s.2)
   | .setpen p => ({ s.1 with pen := (setpen s.1.caps s.1.pen p).1 }, VT.run (setpen s.1.caps s.1.pen p).2 s.2)
   | .chpen p => ({ s.1 with pen := (chpen s.1.caps s.1.pen p).1 }, VT.run (chpen s.1.caps s.1.pen p).2 s.2)
+  | .resize l c => ({ s.1 with lines := l, cols := c }, s.2.resize l c (freshGrid c))   -- the driver sends nothing
 
 def OpInContract (fx : Fixes) (s : Drv × VT.VTState) : Op → Prop
   | .req q => InContract fx s.1 s.2 q
   | .setpen p => Spec.PenOK p
   | .chpen p => Spec.PenOK p
+  | .resize l c => 1 ≤ l ∧ 1 ≤ c
 
 /-- A request had exactly its effect; a pen change touched nothing but the rendering attributes. -/
 def OpOK (fx : Fixes) (s s' : Drv × VT.VTState) : Op → Prop
   | .req q => StepOK fx s.1 s.2 s'.2 q
   | .setpen _ => s'.2 = { s.2 with bg := s'.2.bg, rv := s'.2.rv }
   | .chpen _ => s'.2 = { s.2 with bg := s'.2.bg, rv := s'.2.rv }
+  | .resize l c => s'.2 = s.2.resize l c (freshGrid c) ∧ s'.1.lines = l ∧ s'.1.cols = c ∧ s'.1.caps = s.1.caps ∧
+      s'.1.pen = s.1.pen
 
 def AllOpsInContract (fx : Fixes) : Drv × VT.VTState → List Op → Prop
   | _, [] => True
